@@ -369,7 +369,7 @@ Definition mon_C09 (cs : amap pconf) (o : obs) (te : tid * event) : bool :=
       let x := oi_get o i in
       let prev := r_status (on_get o (o_nm x)) in
       (* legal transition, or an explicit new start of a name whose previous instance ended *)
-      (legal prev s0 || (o_byapi x && Nat.eqb (o_launches x) 0 && status_eqb s0 SPending) || (status_eqb prev SPending && status_eqb s0 SPending))
+      (legal prev s0 || (Nat.eqb (o_launches x) 0 && status_eqb s0 SPending) || (status_eqb prev SPending && status_eqb s0 SPending))
       (* Completed / Skipped / Error only when no command of the instance is alive *)
       && (negb (terminal s0) || negb (o_alive x))
   | ELaunch true => match ev_inst o (fst te) (snd te) with
